@@ -18,10 +18,11 @@ import (
 type thread struct {
 	id      int
 	name    string
-	resume  chan struct{}
+	resume  baton
 	done    bool
 	blocked func() bool // nil = runnable; else enabled iff blocked() is true
 	blockOn string
+	doneCh  chan struct{}
 }
 
 type timer struct {
@@ -38,7 +39,7 @@ type Sched struct {
 	now     time.Time
 	timers  []*timer
 	tseq    int
-	yield   chan struct{}
+	yield   baton
 
 	prefix   []int
 	choices  []int
@@ -70,14 +71,20 @@ var OnRunStart []func()
 
 // Active reports whether a controlled execution is running (shims fall through to the real
 // primitives otherwise).
+//
+//go:norace
 func Active() bool { return active != nil }
 
 var epoch0 = time.Date(2030, 1, 1, 0, 0, 0, 0, time.UTC)
 
 // Epoch0 is the virtual time at which every execution starts.
+//
+//go:norace
 func Epoch0() time.Time { return epoch0 }
 
 // Now returns the virtual time (real time when no execution is active).
+//
+//go:norace
 func Now() time.Time {
 	if active == nil {
 		return time.Now()
@@ -105,8 +112,10 @@ type Result struct {
 // Run executes body as thread "main" under the given choice prefix (choice 0 afterwards).
 // The execution ends when main returns, on failure, on deadlock or at the step horizon; all other
 // threads are then torn down.
+//
+//go:norace
 func Run(prefix []int, maxSteps int, trace bool, body func()) (res Result) {
-	s := &Sched{prefix: prefix, now: epoch0, maxSteps: maxSteps, tracing: trace, yield: make(chan struct{})}
+	s := &Sched{prefix: prefix, now: epoch0, maxSteps: maxSteps, tracing: trace, yield: newBaton()}
 	if active != nil {
 		panic("sched: nested Run")
 	}
@@ -171,24 +180,29 @@ func Run(prefix []int, maxSteps int, trace bool, body func()) (res Result) {
 			continue
 		}
 		s.cur = en[c]
-		s.cur.resume <- struct{}{}
-		<-s.yield
+		s.cur.resume.signal()
+		s.yield.wait()
 	}
 	// tear down: every remaining thread unwinds with a kill signal
 	s.killed = true
 	for _, t := range s.threads {
 		if !t.done {
 			s.cur = t
-			t.resume <- struct{}{}
-			<-s.yield
+			t.resume.signal()
+			s.yield.wait()
 		}
 	}
+	for _, t := range s.threads {
+		t.resume.release()
+	}
+	s.yield.release()
 	return Result{Choices: s.choices, NOpts: s.nopts, Kinds: s.kinds, CurRun: s.curRun, ClockAt: s.clockAt, NProg: s.nprog, Failure: s.failure, Deadlock: deadlock,
 		Steps: s.steps, Threads: len(s.threads), Log: s.Log, Trace: s.trace, Now: s.now.Sub(epoch0)}
 }
 
+//go:norace
 func (s *Sched) spawn(name string, fn func()) *thread {
-	t := &thread{id: len(s.threads), name: name, resume: make(chan struct{})}
+	t := &thread{id: len(s.threads), name: name, resume: newBaton(), doneCh: make(chan struct{})}
 	if t.id > 0 {
 		t.name = fmt.Sprintf("%s#%d", name, t.id)
 	}
@@ -201,9 +215,10 @@ func (s *Sched) spawn(name string, fn func()) *thread {
 				}
 			}
 			t.done = true
-			s.yield <- struct{}{}
+			close(t.doneCh) // a real synchronisation edge for harness joins (WaitAll)
+			s.yield.signal()
 		}()
-		<-t.resume
+		t.resume.wait()
 		if s.killed {
 			panic(killSignal{})
 		}
@@ -212,6 +227,7 @@ func (s *Sched) spawn(name string, fn func()) *thread {
 	return t
 }
 
+//go:norace
 func (s *Sched) tracef(format string, a ...interface{}) {
 	if s.tracing {
 		s.trace = append(s.trace, fmt.Sprintf("[%v %s] ", s.now.Sub(epoch0), s.cur.name)+fmt.Sprintf(format, a...))
@@ -219,6 +235,8 @@ func (s *Sched) tracef(format string, a ...interface{}) {
 }
 
 // Go starts a new program thread (a plain goroutine when no execution is active).
+//
+//go:norace
 func Go(name string, fn func()) {
 	s := active
 	if s == nil {
@@ -233,6 +251,7 @@ func Go(name string, fn func()) {
 	s.point()
 }
 
+//go:norace
 func (s *Sched) enabled() []*thread {
 	var en []*thread
 	if c := s.cur; c != nil && !c.done && (c.blocked == nil || c.blocked()) {
@@ -249,6 +268,7 @@ func (s *Sched) enabled() []*thread {
 	return en
 }
 
+//go:norace
 func (s *Sched) pendingTimer() *timer {
 	var best *timer
 	live := s.timers[:0]
@@ -265,6 +285,7 @@ func (s *Sched) pendingTimer() *timer {
 	return best
 }
 
+//go:norace
 func (s *Sched) choose(n int, curRunnable bool, kind byte) int {
 	i := len(s.choices)
 	c := 0
@@ -284,6 +305,8 @@ func (s *Sched) choose(n int, curRunnable bool, kind byte) int {
 }
 
 // Choose is an explicit environment choice point (alternative 0 is the default answer).
+//
+//go:norace
 func Choose(n int, what string) int {
 	s := active
 	if s == nil || s.killed || n <= 1 {
@@ -294,16 +317,19 @@ func Choose(n int, what string) int {
 	return c
 }
 
+//go:norace
 func (s *Sched) point() {
 	t := s.cur
-	s.yield <- struct{}{}
-	<-t.resume
+	s.yield.signal()
+	t.resume.wait()
 	if s.killed {
 		panic(killSignal{})
 	}
 }
 
 // Point is a scheduling point placed before a visible operation.
+//
+//go:norace
 func Point(what string) {
 	s := active
 	if s == nil || s.killed {
@@ -315,6 +341,8 @@ func Point(what string) {
 
 // Block parks the calling thread until cond() holds. cond is evaluated by the controller and must
 // be a pure function of shim state.
+//
+//go:norace
 func Block(what string, cond func() bool) {
 	s := active
 	if s == nil {
@@ -327,8 +355,8 @@ func Block(what string, cond func() bool) {
 	t.blocked = cond
 	t.blockOn = what
 	s.tracef("blocks on %s", what)
-	s.yield <- struct{}{}
-	<-t.resume
+	s.yield.signal()
+	t.resume.wait()
 	t.blocked = nil
 	t.blockOn = ""
 	if s.killed {
@@ -336,6 +364,7 @@ func Block(what string, cond func() bool) {
 	}
 }
 
+//go:norace
 func (s *Sched) blockedList() []string {
 	var out []string
 	for _, t := range s.threads {
@@ -348,6 +377,8 @@ func (s *Sched) blockedList() []string {
 }
 
 // Fail records a harness-detected failure and ends the execution.
+//
+//go:norace
 func Fail(format string, a ...interface{}) {
 	s := active
 	if s == nil {
@@ -364,6 +395,8 @@ func Fail(format string, a ...interface{}) {
 
 // AddTimer registers fire() at virtual time `when`. fire runs in the controller: it may only
 // change shim state (it must not call Point/Block).  Returns a cancel func.
+//
+//go:norace
 func AddTimer(when time.Time, fire func()) (cancel func()) {
 	s := active
 	t := &timer{when: when, seq: s.tseq, fire: fire}
@@ -373,6 +406,8 @@ func AddTimer(when time.Time, fire func()) (cancel func()) {
 }
 
 // SpawnFromTimer starts a thread from inside a timer's fire function (time.AfterFunc).
+//
+//go:norace
 func SpawnFromTimer(name string, fn func()) {
 	if s := active; s != nil && !s.killed {
 		s.spawn(name, fn)
@@ -380,6 +415,8 @@ func SpawnFromTimer(name string, fn func()) {
 }
 
 // Logf appends to the observation log of the execution.
+//
+//go:norace
 func Logf(format string, a ...interface{}) {
 	if s := active; s != nil && !s.killed {
 		s.Log = append(s.Log, fmt.Sprintf(format, a...))
@@ -390,9 +427,13 @@ func Logf(format string, a ...interface{}) {
 type Handle struct{ t *thread }
 
 // Done reports whether the thread has finished.
+//
+//go:norace
 func (h Handle) Done() bool { return h.t == nil || h.t.done }
 
 // BlockedOn returns what the thread is blocked on ("" if runnable or finished).
+//
+//go:norace
 func (h Handle) BlockedOn() string {
 	if h.t == nil || h.t.done || h.t.blocked == nil {
 		return ""
@@ -401,9 +442,13 @@ func (h Handle) BlockedOn() string {
 }
 
 // Name of the thread.
+//
+//go:norace
 func (h Handle) Name() string { return h.t.name }
 
 // Spawn starts a harness thread and returns its handle (a scheduling point, like Go).
+//
+//go:norace
 func Spawn(name string, fn func()) Handle {
 	s := active
 	if s == nil {
@@ -419,9 +464,13 @@ func Spawn(name string, fn func()) Handle {
 }
 
 // Self returns the handle of the running thread.
+//
+//go:norace
 func Self() Handle { return Handle{active.cur} }
 
 // WaitAll blocks the caller until all given threads have finished.
+//
+//go:norace
 func WaitAll(hs ...Handle) {
 	Block("join", func() bool {
 		for _, h := range hs {
@@ -431,10 +480,17 @@ func WaitAll(hs ...Handle) {
 		}
 		return true
 	})
+	for _, h := range hs {
+		if h.t != nil {
+			<-h.t.doneCh
+		}
+	}
 }
 
 // Quiesce blocks the caller until every other thread is blocked (not merely unscheduled) on something
 // other than a virtual-time sleep, or finished: the system has nothing left to do by itself.
+//
+//go:norace
 func Quiesce() {
 	s := active
 	me := s.cur
@@ -460,6 +516,8 @@ var OnAdvance func(old, new time.Time, idle bool)
 var OnDeadlock func() string
 
 // FailFromController records a failure from a controller-side hook (OnAdvance).
+//
+//go:norace
 func FailFromController(format string, a ...interface{}) {
 	if s := active; s != nil && s.failure == "" {
 		s.failure = fmt.Sprintf(format, a...)
@@ -467,12 +525,18 @@ func FailFromController(format string, a ...interface{}) {
 }
 
 // Elapsed is the virtual time since the start of the execution.
+//
+//go:norace
 func Elapsed() time.Duration { return Now().Sub(epoch0) }
 
 // Killed reports whether the execution is being torn down.
+//
+//go:norace
 func Killed() bool { return active != nil && active.killed }
 
 // CurName returns the running thread's name.
+//
+//go:norace
 func CurName() string {
 	if s := active; s != nil && s.cur != nil {
 		return s.cur.name
@@ -481,6 +545,8 @@ func CurName() string {
 }
 
 // Step returns the number of scheduling steps so far (a logical timestamp for histories).
+//
+//go:norace
 func Step() int {
 	if s := active; s != nil {
 		return s.steps
